@@ -14,7 +14,7 @@ from ..runs import describe_path, run_function
 from ..scenarios import core_impl, recv_sym
 from ..values import ARG, CLS, FRESH, RECV, Const, Sentinel, Sym, vrepr
 from . import provrun
-from .base import get_ctx, immutable_reprs, pmap, wkey
+from .base import get_ctx, immutable_reprs, pmap, wkey, is_imm
 
 META = {
     "assumptions": [
@@ -45,7 +45,7 @@ def worker(task):
     viols = []
     for p in r["paths"]:
         for e in p["trace"]:
-            if e[5] in p["imm"]:
+            if is_imm(e[5], p["imm"]):
                 continue
             viols.append({"key": wkey(ctx.p, "C02.S", e).replace("|FRESH|", "|stores-RECV|") + f"|entry:{r['task'][0]}", "site": e[-1],
                           "value": e[5], "how": e[1], "entry": r["entry"], "path": p["desc"]})
